@@ -669,7 +669,7 @@ class Exec:
             v = self.ev(n.args[0]); tn = ast.unparse(n.args[1])
             if isinstance(v, ObjV): return tn.split('.')[-1] in (v.cls, 'cls') or tn in ('cls', 'self.__class__')
             if isinstance(v, NdV): return tn in ('numpy.ndarray', 'ndarray')
-            if isinstance(v, (IntV, Cell, bool)) or v is None: return False if tn.split('.')[-1] in ('UTPM', 'cls', 'ndarray', 'Function') or tn in ('self.__class__', 'numpy.ndarray') else _undecided('isinstance of scalar against ' + tn)
+            if isinstance(v, (IntV, Cell, bool)) or v is None: return False if tn.split('.')[-1] in ('UTPM', 'cls', 'ndarray', 'Function', 'integer') or tn in ('self.__class__', 'numpy.ndarray') else _undecided('isinstance of scalar against ' + tn)      # numpy.integer: the scalar parameters of a configuration are Python ints / reals (numpy scalars: bounded operator matrix)
             raise Undecided('isinstance')
         if fn == 'numpy.isscalar' and len(n.args) == 1:
             v = self.ev(n.args[0]); return isinstance(v, (IntV, Cell))
